@@ -447,3 +447,49 @@ Proof.
 Qed.
 
 End Mono.
+
+(** ** The error list: cap and jail flag (lexing/error_list.go Add)
+
+    [p_add] models [ErrorList.Add]: the jail flag is set FIRST, on every call;
+    the error itself is kept only while fewer than [max_errs] are recorded.
+    The termination proofs above use nothing else of [p_add] than
+    [jail_add] (every Add jails) and [msr_add] (Add consumes nothing): the
+    recovery of parseSeries ([SkipErrStmt] after a failed parseTypeName) and
+    the [if p.InError() break] exits of the entry loops make progress because
+    of the flag, also when the list is already full. *)
+
+Lemma p_add_always_jails e st : jail (p_add e st) = true.
+Proof. reflexivity. Qed.
+
+Lemma p_add_full_drops e st :
+  max_errs <= length (perrs st) -> perrs (p_add e st) = perrs st /\ jail (p_add e st) = true.
+Proof.
+  intros H. split; [|reflexivity]. cbn [p_add perrs]. unfold add_err.
+  destruct (Nat.ltb_spec (length (perrs st)) max_errs); [lia|reflexivity].
+Qed.
+
+Lemma p_add_keeps_below_cap e st :
+  length (perrs st) < max_errs -> perrs (p_add e st) = perrs st ++ [e].
+Proof.
+  intros H. cbn [p_add perrs]. unfold add_err.
+  destruct (Nat.ltb_spec (length (perrs st)) max_errs); [reflexivity|lia].
+Qed.
+
+Lemma perrs_capped e st : length (perrs st) <= max_errs -> length (perrs (p_add e st)) <= max_errs.
+Proof.
+  intros H. cbn [p_add perrs]. unfold add_err.
+  destruct (Nat.ltb_spec (length (perrs st)) max_errs); [rewrite app_length; cbn; lia|exact H].
+Qed.
+
+(** The step the series loop takes after a failed type name: whatever the
+    error list holds, it consumes at least one token.  (This is the fact
+    [parse_series_ok] rests on; it fails for an Add that returns before
+    setting the flag when the list is full, see Jsonx/TermLegacy.v.) *)
+Lemma recovery_after_add_progress e st :
+  is_eof (cur st) = false -> msr (snd (skip_err_stmt (p_add e st))) < msr st.
+Proof.
+  intros Hne. pose proof (skip_err_stmt_spec (p_add e st)) as Hs.
+  destruct (skip_err_stmt (p_add e st)) as [b st2]. destruct Hs as (_ & Hs2 & _).
+  destruct (Hs2 (p_add_always_jails e st)) as [_ Hlt]. cbn [snd].
+  specialize (Hlt Hne). now rewrite msr_add in Hlt.
+Qed.
